@@ -10,6 +10,8 @@ def contracts():
         out.append(interp.interpolate_fwd_contract(c))
         out.append(interp.interpolate_at_t1_contract(c))
     out.append(adaptive.terminal_values_contract())
+    # which branch a checkpoint takes (before / within eps / beyond) and what is handed on: the rejection-loop contract of C06
+    out += [adaptive.loop_contract(False), adaptive.loop_contract(True)]
     for layout in ("dense", "isotropic", "blockdiag"):
         d = 1 if layout == "dense" else 2
         out.append(interp.offgrid_contract(ivp.Cfg(layout, "none", "filter", "ts0", q=1, d=d), N=2, k=1))
